@@ -37,7 +37,8 @@ macro_rules! any_g {
         }
     };
 }
-any_g!(1 N1, 2 N2, 3 N3, 4 N4, 5 N5, 6 N6, 7 N7, 8 N8, 9 N9, 10 N10, 11 N11, 12 N12, 13 N13, 14 N14, 15 N15, 16 N16);
+// every N from 1 to 17, and two larger ones (beyond u8-sized masks of 16 and 32 bits)
+any_g!(1 N1, 2 N2, 3 N3, 4 N4, 5 N5, 6 N6, 7 N7, 8 N8, 9 N9, 10 N10, 11 N11, 12 N12, 13 N13, 14 N14, 15 N15, 16 N16, 17 N17, 33 N33, 64 N64);
 
 enum HS {
     Live(AnyG),
